@@ -63,25 +63,30 @@ class Parser(Emitter):
             args = []
 
         fn = self.functions.get(name)
+        not_found = lambda : 0
         result = {'value': None}  # get around 2.7 not having nonlocal
         if fn is None:
             fn = formulas.get_for(name)
         if fn is None:
-            raise formulaserror.NAME
-        try:
-            result['value'] = fn(*args)
-        except Exception as e:
-            # an error raised inside a function is the value of the call, so that
-            # enclosing operators propagate it and IFERROR/ISERROR & co. can see it
-            if self.debug:
-                traceback.print_exc()
-            result['value'] = formulaserror.from_message(e)
+            # as for a variable: the listeners of the event may still answer for the name
+            result['value'] = not_found
+        else:
+            try:
+                result['value'] = fn(*args)
+            except Exception as e:
+                # an error raised inside a function is the value of the call, so that
+                # enclosing operators propagate it and IFERROR/ISERROR & co. can see it
+                if self.debug:
+                    traceback.print_exc()
+                result['value'] = formulaserror.from_message(e)
 
         def valsetter(new_value):
             if new_value is not None:
                 result['value'] = new_value
 
         self._notify('callFunction', name, args, valsetter)
+        if result['value'] is not_found:
+            raise formulaserror.NAME
         return self._canonical(result['value'])
 
     def _notify(self, event, *args):
